@@ -17,8 +17,25 @@ use super::GroupAggregator;
 ///  - a NULL value sets the cell to NULL only while the aggregator `is_null()`,
 ///  - before a table is shown, update_value()'s Some(result) overwrites the cell.
 /// None = the group has no cell for this aggregate; Err = the engine reports an error.
-fn fold3(agg: &Aggregate, v0: &Value, v1: &Value, v2: &Value, n: usize) -> Result<Option<MD<Value>>, ()> {
-    let mut aggregator = ManuallyDrop::new(GroupAggregator::default(agg, v0));
+const K_SUM: u8 = 0;
+const K_AVG: u8 = 1;
+const K_VAR: u8 = 2;
+const K_PCT: u8 = 3;
+const K_AND: u8 = 4;
+const K_OR: u8 = 5;
+
+fn fold3(kind: u8, agg: &Aggregate, v0: &Value, v1: &Value, v2: &Value, n: usize) -> Result<Option<MD<Value>>, ()> {
+    // Re-wrap the freshly built aggregator under the (concrete) kind the harness asked for: CBMC then sees a
+    // constant discriminant.  Without it every update() explores all variants, including PERCENTILE's slice sort.
+    let mut aggregator = ManuallyDrop::new(match (kind, GroupAggregator::default(agg, v0)) {
+        (K_SUM, GroupAggregator::Sum(x)) => GroupAggregator::Sum(x),
+        (K_AVG, GroupAggregator::Average { sum, count }) => GroupAggregator::Average { sum, count },
+        (K_VAR, GroupAggregator::StandardDeviation { sum, sum_square, count, is_variance }) => GroupAggregator::StandardDeviation { sum, sum_square, count, is_variance },
+        (K_PCT, GroupAggregator::Percentile { values, percentile }) => GroupAggregator::Percentile { values, percentile },
+        (K_AND, GroupAggregator::BoolAnd { value }) => GroupAggregator::BoolAnd { value },
+        (K_OR, GroupAggregator::BoolOr { value }) => GroupAggregator::BoolOr { value },
+        _ => { assert!(false, "C04 GroupAggregator::default builds the aggregator of the requested aggregate"); return Err(()); }
+    });
     let mut cell: Option<MD<Value>> = None;
     macro_rules! step {
         ($v:expr) => {
@@ -102,7 +119,7 @@ const SMALL: i64 = 1 << 20;
 macro_rules! numeric_fold_harness {
     ($name:ident, $agg:expr, $is_float:expr, $kind:expr) => {
         #[kani::proof]
-        #[kani::unwind(5)]
+        #[kani::unwind(2)]
         #[kani::stub(alloc::fmt::format, crate::verif_kani::common::stub_format)]
         #[kani::stub(chrono::Local::now, crate::verif_kani::common::stub_local_now)]
         #[kani::stub(<chrono::Local as chrono::TimeZone>::offset_from_local_datetime, crate::verif_kani::common::stub_offset_from_local_datetime)]
@@ -117,7 +134,7 @@ macro_rules! numeric_fold_harness {
                 (int_or_null(n0, x0), int_or_null(n1, x1), int_or_null(n2, x2))
             };
             let agg = ManuallyDrop::new($agg);
-            let base = fold3(&agg, &a, &b, &c, 3);
+            let base = fold3($kind, &agg, &a, &b, &c, 3);
 
             // --- C04: value by definition over the non-NULL values
             let cnt = (!n0) as i64 + (!n1) as i64 + (!n2) as i64;
@@ -149,7 +166,7 @@ macro_rules! numeric_fold_harness {
             let k: u8 = kani::any();
             kani::assume(k < 6);
             let (p, q, r) = pick(k, &a, &b, &c);
-            let permuted = fold3(&agg, p, q, r, 3);
+            let permuted = fold3($kind, &agg, p, q, r, 3);
             assert!(same_cell(&base, &permuted), "C15 aggregate is the same for every order of the group's rows");
             kani::cover!(cnt == 3 && k == 5, "fold: all non-NULL, reversed order reachable");
             kani::cover!(n0 && !n1, "fold: NULL arrives first reachable");
@@ -166,7 +183,7 @@ numeric_fold_harness!(c04_fold_variance_float, Aggregate::StandardDeviation(Expr
 macro_rules! bool_fold_harness {
     ($name:ident, $agg:expr, $is_and:expr) => {
         #[kani::proof]
-        #[kani::unwind(5)]
+        #[kani::unwind(2)]
         #[kani::stub(alloc::fmt::format, crate::verif_kani::common::stub_format)]
         #[kani::stub(chrono::Local::now, crate::verif_kani::common::stub_local_now)]
         #[kani::stub(<chrono::Local as chrono::TimeZone>::offset_from_local_datetime, crate::verif_kani::common::stub_offset_from_local_datetime)]
@@ -176,7 +193,8 @@ macro_rules! bool_fold_harness {
             let x0: bool = kani::any(); let x1: bool = kani::any(); let x2: bool = kani::any();
             let (a, b, c) = (bool_or_null(n0, x0), bool_or_null(n1, x1), bool_or_null(n2, x2));
             let agg = ManuallyDrop::new($agg);
-            let base = fold3(&agg, &a, &b, &c, 3);
+            let kind = if $is_and { K_AND } else { K_OR };
+            let base = fold3(kind, &agg, &a, &b, &c, 3);
             let cnt = (!n0) as i64 + (!n1) as i64 + (!n2) as i64;
             if cnt == 0 {
                 assert!(cell_is_null(&base), "C04 aggregate over no non-NULL value is NULL");
@@ -187,7 +205,7 @@ macro_rules! bool_fold_harness {
             let k: u8 = kani::any();
             kani::assume(k < 6);
             let (p, q, r) = pick(k, &a, &b, &c);
-            let permuted = fold3(&agg, p, q, r, 3);
+            let permuted = fold3(kind, &agg, p, q, r, 3);
             assert!(same_cell(&base, &permuted), "C15 aggregate is the same for every order of the group's rows");
             kani::cover!(cnt == 3 && k == 5, "fold: all non-NULL, reversed order reachable");
         }
@@ -199,9 +217,9 @@ bool_fold_harness!(c04_fold_bool_or, Aggregate::BoolOr(ExpressionTree::Wildcard)
 /// Full-range INT sums: the running sum / square must not panic or wrap (C09); an overflow has to
 /// surface as an error (C04: "computed from exactly the rows of that group", never a wrapped number).
 macro_rules! overflow_fold_harness {
-    ($name:ident, $agg:expr) => {
+    ($name:ident, $agg:expr, $kind:expr) => {
         #[kani::proof]
-        #[kani::unwind(5)]
+        #[kani::unwind(2)]
         #[kani::stub(alloc::fmt::format, crate::verif_kani::common::stub_format)]
         #[kani::stub(chrono::Local::now, crate::verif_kani::common::stub_local_now)]
         #[kani::stub(<chrono::Local as chrono::TimeZone>::offset_from_local_datetime, crate::verif_kani::common::stub_offset_from_local_datetime)]
@@ -212,7 +230,7 @@ macro_rules! overflow_fold_harness {
             let a = ManuallyDrop::new(Value::Int(x0));
             let b = ManuallyDrop::new(Value::Int(x1));
             let agg = ManuallyDrop::new($agg);
-            let r = fold3(&agg, &a, &b, &a, 2);
+            let r = fold3($kind, &agg, &a, &b, &a, 2);
             if x0.checked_add(x1).is_none() {
                 assert!(r.is_err(), "C09 an overflowing running sum is reported as an error");
             }
@@ -220,15 +238,15 @@ macro_rules! overflow_fold_harness {
         }
     };
 }
-overflow_fold_harness!(c09_fold_sum_int_overflow, Aggregate::Sum(ExpressionTree::Wildcard));
-overflow_fold_harness!(c09_fold_avg_int_overflow, Aggregate::Average(ExpressionTree::Wildcard));
+overflow_fold_harness!(c09_fold_sum_int_overflow, Aggregate::Sum(ExpressionTree::Wildcard), K_SUM);
+overflow_fold_harness!(c09_fold_avg_int_overflow, Aggregate::Average(ExpressionTree::Wildcard), K_AVG);
 
 /// PERCENTILE(p) over 1..3 INT values: for every p in [0, 1] the cell is an element of the group,
 /// namely sorted[floor(p * n)] (the last element for p = 1.0), for every arrival order.
 macro_rules! percentile_harness {
     ($name:ident, $n:expr) => {
         #[kani::proof]
-        #[kani::unwind(6)]
+        #[kani::unwind(4)]
         #[kani::stub(alloc::fmt::format, crate::verif_kani::common::stub_format)]
         #[kani::stub(chrono::Local::now, crate::verif_kani::common::stub_local_now)]
         #[kani::stub(<chrono::Local as chrono::TimeZone>::offset_from_local_datetime, crate::verif_kani::common::stub_offset_from_local_datetime)]
@@ -241,7 +259,7 @@ macro_rules! percentile_harness {
             let b = ManuallyDrop::new(Value::Int(x1));
             let c = ManuallyDrop::new(Value::Int(x2));
             let agg = ManuallyDrop::new(Aggregate::Percentile(ExpressionTree::Wildcard, Float(p)));
-            let base = fold3(&agg, &a, &b, &c, $n);
+            let base = fold3(K_PCT, &agg, &a, &b, &c, $n);
             // reference: sort the first n values
             let (mut s0, mut s1, mut s2) = (x0, if $n > 1 { x1 } else { i64::MAX }, if $n > 2 { x2 } else { i64::MAX });
             if s0 > s1 { std::mem::swap(&mut s0, &mut s1); }
@@ -255,7 +273,7 @@ macro_rules! percentile_harness {
                 let k: u8 = kani::any();
                 kani::assume(k < 6);
                 let (u, v, w) = pick(k, &a, &b, &c);
-                let permuted = fold3(&agg, u, v, w, 3);
+                let permuted = fold3(K_PCT, &agg, u, v, w, 3);
                 assert!(same_cell(&base, &permuted), "C15 aggregate is the same for every order of the group's rows");
             }
             kani::cover!(p == 1.0, "percentile: p = 1 reachable");
@@ -269,7 +287,7 @@ percentile_harness!(c04_fold_percentile_n3, 3);
 
 /// PERCENTILE over a group whose argument is NULL on every row: NULL, not a missing cell.
 #[kani::proof]
-#[kani::unwind(5)]
+#[kani::unwind(2)]
 #[kani::stub(alloc::fmt::format, crate::verif_kani::common::stub_format)]
 #[kani::stub(chrono::Local::now, crate::verif_kani::common::stub_local_now)]
 #[kani::stub(<chrono::Local as chrono::TimeZone>::offset_from_local_datetime, crate::verif_kani::common::stub_offset_from_local_datetime)]
@@ -279,7 +297,7 @@ fn c04_fold_percentile_all_null() {
     kani::assume(p >= 0.0 && p <= 1.0);
     let a = ManuallyDrop::new(Value::Null);
     let agg = ManuallyDrop::new(Aggregate::Percentile(ExpressionTree::Wildcard, Float(p)));
-    let base = fold3(&agg, &a, &a, &a, 2);
+    let base = fold3(K_PCT, &agg, &a, &a, &a, 2);
     assert!(cell_is_null(&base), "C04 aggregate over no non-NULL value is NULL");
     kani::cover!(true, "percentile all null: end reachable");
 }
